@@ -517,6 +517,31 @@ def _always_advances(u, callee, pname):
     return moves_forward(u, callee, pname, 1)
 
 
+def _span_of_current_byte(cfg, node, ev):
+    r = strip_casts(ev.node['r'])
+    if r.get('k') != 'call' or callee_name(r) != 'strspn' or len(r['args']) != 2:
+        return False
+    cur = expr_str(strip_casts(ev.lhs))
+    if expr_str(strip_casts(r['args'][0])) != cur:
+        return False
+    lit = strip_casts(r['args'][1])
+    if lit.get('k') != 'str':
+        return False
+    allowed = set(lit['bytes'])
+
+    def reads_current(e):
+        acc = access(strip_casts(e)) if strip_casts(e).get('k') in ('idx', 'un') else None
+        return acc is not None and expr_str(strip_casts(acc[0])) == cur and acc[1] == 0
+    sws = [sw for sw in cfg.nodes if sw.kind == 'switch' and reads_current(sw.expr)]
+    for sw in sws:
+        good = {(sw.id, l[2]) for (_y, l) in cfg.succ[sw.id] if l is not None and l[0] == 'case' and l[2] in allowed}
+        if not good:
+            continue
+        if guarded_by(cfg, node.id, lambda nn, l, sw=sw: nn.id == sw.id and l is not None and l[0] == 'case' and l[2] in allowed):
+            return True
+    return False
+
+
 # ---- BND6 loop progress -----------------------------------------------------------------------------------------------
 
 def bnd6(units, R, functions=None):
@@ -559,6 +584,11 @@ def bnd6(units, R, functions=None):
                                 if any(y not in comp for (y, _l) in cfg.succ[m]):
                                     progress.add(nid)
                                     steps.append(expr_str(ev.node))
+                    elif ev.kind == 'store' and ev.node['op'] == '+=' and _span_of_current_byte(cfg, n, ev):
+                        # p += strspn(p, set) reached only through `case` labels of a switch on *p that are all in the set:
+                        # the byte under the cursor belongs to the span, so it is at least one byte long
+                        progress.add(nid)
+                        steps.append(expr_str(ev.node)[:40] + ' (>= 1)')
                     elif ev.kind == 'store' and ev.node['op'] == '+=':
                         c = const_val(ev.node['r'])
                         if c is not None and c > 0:
